@@ -20,9 +20,14 @@ def put(buf, pos, data):
     buf[pos:pos + len(data)] = data
 
 
-def rand_elf(rng, clean=None, file_safe=False, want=None):
+DISK_LIMIT = 2 ** 48          # nominal: every generated huge offset/size is >= 2**50, everything else < 2**32
+
+
+def rand_elf(rng, clean=None, file_safe=False, want=None, disk=False):
     """Returns (bytes, expect) where expect = (cap, enc, machine, flags, interp or None) when the image was laid out cleanly
-    (no truncation/overlap/damage), else None.  file_safe: keep every offset/size small (for images read through a real file)."""
+    (no truncation/overlap/damage), else None.  file_safe: keep every offset/size small (for images read through a real file).
+    disk: the image will be read through a real file although it is not file_safe: huge values are taken from {2**50, 2**62, 2**63-1, 2**63, max}
+    only (far from the machine-dependent limits of lseek and of a read buffer), never 2**40."""
     if clean is None: clean = rng.random() < 0.5
     cap, enc = rng.choice([1, 2]), rng.choice([1, 2])
     if want in ("armhf", "i686"):
@@ -37,9 +42,9 @@ def rand_elf(rng, clean=None, file_safe=False, want=None):
     if want == "i686": machine = 3 if rng.random() < 0.85 else rng.choice(MACHINES)
     ehsize = 16 + struct.calcsize(E_FMT[(cap, enc)])
     psize = struct.calcsize(P_FMT[(cap, enc)])
-    nph = rng.choice([0, 1, 2, 3, 4, 6])
+    nph = rng.choice([0, 1, 2, 3, 4, 6, 6, 9, 17] if not file_safe else [0, 1, 2, 3, 4, 6])
     if want == "musl" and rng.random() < 0.9: nph = max(nph, 1)
-    entsize = psize if clean or rng.random() < 0.6 else (psize + rng.choice([0, 8, 44])) if file_safe else rng.choice([0, 1, psize - 1, psize + 8, 7, 64, 300, 65535 if nph <= 1 else 100])
+    entsize = psize if clean or rng.random() < 0.6 else (psize + rng.choice([0, 8, 44])) if (file_safe or disk) else rng.choice([0, 1, psize - 1, psize + 8, 7, 64, 300, 65535 if nph <= 1 else 100])
     phoff = ehsize if rng.random() < 0.7 else ehsize + rng.randrange(0, 40)
     buf = bytearray()
     types = [rng.choice([0, 1, 1, 2, 3, 3, 4, 6, 0x6474E551, 7, 0x70000001]) for _ in range(nph)]
@@ -55,8 +60,8 @@ def rand_elf(rng, clean=None, file_safe=False, want=None):
             if r < 0.12: size = rng.choice([0, max(len(s) - 3, 0), len(s) + 5, 4096])
             elif r < 0.2: off = rng.choice([0, 3, blob_at + 10 ** 6, 2 ** 31])
             elif r < (0.45 if t == 3 else 0.3) and not file_safe:
-                if rng.random() < 0.5: off = rng.choice([2 ** 63 - 1, 2 ** 63, wide, 2 ** 62]) & wide
-                else: size = rng.choice([2 ** 63 - 1, 2 ** 63, wide, 2 ** 40]) & wide
+                if rng.random() < 0.5: off = rng.choice([2 ** 63 - 1, 2 ** 63, wide, 2 ** 62] + ([2 ** 50] if disk else [])) & wide
+                else: size = rng.choice([2 ** 63 - 1, 2 ** 63, wide, 2 ** 50 if disk else 2 ** 40] + ([2 ** 62] if disk else [])) & wide
         fields = [t, rng.randrange(8)] + [rng.randrange(2 ** 16) for _ in range(6)]
         io, isz = (1, 4) if cap == 1 else (2, 5)
         if cap == 2: fields[1] = rng.randrange(8)
@@ -69,8 +74,8 @@ def rand_elf(rng, clean=None, file_safe=False, want=None):
     e_phoff, e_phnum = phoff, nph
     if not clean:
         r = rng.random()
-        if r < 0.08 and not file_safe: e_phoff = rng.choice([2 ** 63 - 1, 2 ** 63, 2 ** 64 - 1, 2 ** 63 - psize, 2 ** 62]) & wide
-        elif r < 0.14: e_phoff = rng.choice([0, 5, 10 ** 6, 2 ** 31 - 1] if not file_safe else [10 ** 6, 2 ** 31 - 1])
+        if r < 0.08 and not file_safe: e_phoff = rng.choice([2 ** 63 - 1, 2 ** 63, 2 ** 64 - 1, 2 ** 63 - psize, 2 ** 62] + ([2 ** 50] if disk else [])) & wide
+        elif r < 0.14: e_phoff = rng.choice([0, 5, 10 ** 6, 2 ** 31 - 1] if not (file_safe or disk) else [10 ** 6, 2 ** 31 - 1])
         elif r < 0.2: e_phnum = rng.choice([nph + 1, nph + 3, max(nph - 1, 0), 40])
         elif r < 0.21 and not file_safe and entsize <= 64: e_phnum = 65535      # long scans over a short file
         elif r < 0.25 and not file_safe and cap == 2: e_phoff = 2 ** 63 - entsize * max(nph - 1, 0) - rng.choice([0, 1]);
@@ -86,7 +91,9 @@ def rand_elf(rng, clean=None, file_safe=False, want=None):
         r = rng.random()
         if r < 0.25: data = data[:rng.randrange(len(data) + 1)]
         elif r < 0.32 and not file_safe:
-            d = bytearray(data); i = rng.randrange(min(len(d), 20)); d[i] = rng.randrange(256); data = bytes(d)
+            d = bytearray(data); i = rng.randrange(min(len(d), 20))
+            if disk and i in (4, 5): i = 6          # a flipped class/endianness byte re-reads the fields as arbitrary 64-bit offsets: between the limits
+            d[i] = rng.randrange(256); data = bytes(d)
         elif r < 0.36: data = data[:rng.choice([0, 3, 4, 5, 6, 15, 16, 17, ehsize - 1, ehsize])]
         elif r < 0.4 and not file_safe:
             d = bytearray(data); d[rng.choice([4, 5])] = rng.choice([0, 3, 255]); data = bytes(d)
@@ -116,7 +123,7 @@ JUNK = ["", "", "", "-2014.11", ".9", ".9.1", "+git", "x", "-r1", ".", "..", " "
 def rand_glibc_string(rng):
     """the text after 'glibc ' in CS_GNU_LIBC_VERSION (or what gnu_get_libc_version returns)"""
     M = rng.choice([2, 2, 2, 2, 3, 3, 1, 0, 4, 2, 10])
-    m = rng.choice([0, 4, 5, 6, 11, 12, 13, 16, 17, 18, 27, 28, 31, 35, 39, 50, 51, 60, rng.randrange(0, 70)])
+    m = rng.choice([0, 4, 5, 6, 11, 12, 13, 16, 17, 18, 27, 28, 31, 35, 39, 50, 51, 60, rng.randrange(0, 70), rng.randrange(0, 130)])
     r = rng.random()
     if r < 0.8: return "%d.%d%s" % (M, m, rng.choice(JUNK))
     if r < 0.86: return "%s%d.%s%d" % (rng.choice(["0", "00"]), M, rng.choice(["0", "00"]), m)
